@@ -240,6 +240,19 @@ func Shape(name string) *Flow {
 			{In: []int{1}, Out: []int{2}, Err: true},
 			{In: []int{1}, Out: []int{3}, Err: true},
 			{In: []int{2, 3}, Out: []int{4}, Err: true}}}
+	} else if strings.HasPrefix(name, "rep:") {
+		// rep:<pattern>: one task whose parameter list repeats a type, e.g. rep:001 = func(T0, T0, T1) T2
+		f = &Flow{Types: st(3), Results: []int{2}}
+		for ty := 0; ty < 2; ty++ {
+			if strings.ContainsRune(name[4:], rune('0'+ty)) {
+				f.Tasks = append(f.Tasks, Task{Out: []int{ty}, Err: true})
+			}
+		}
+		last := Task{Out: []int{2}, Err: true}
+		for _, c := range name[4:] {
+			last.In = append(last.In, int(c-'0'))
+		}
+		f.Tasks = append(f.Tasks, last)
 	} else {
 		f = Shapes()[name]
 	}
